@@ -28,7 +28,10 @@ def effective_newline(spec):
 _vocab = None
 
 
-def count_model_applies(meta, spec_text=None):
+NOTHING = object()
+
+
+def count_model_applies(meta, spec_text=None, spec_booleans=None, spec_syntax=NOTHING):
     """The tabstop count model assumes element names outside every snippet table and
     attribute names outside the boolean-attribute list; the tables are read (data only)
     so that a legitimate change of them switches the count check off instead of alarming."""
@@ -47,7 +50,14 @@ def count_model_applies(meta, spec_text=None):
         return False
     if meta.get('wrap') != spec_text:
         return False        # the count was made for another wrap text (e.g. a minimisation candidate)
-    if any(a.lower() in booleans for a in meta.get('attrs', ())):
+    if spec_booleans is not None and list(meta.get('booleans') or []) != list(spec_booleans):
+        return False        # ... or for another list of boolean attributes
+    if spec_booleans is None and meta.get('booleans'):
+        return False
+    if meta.get('formatter') is not None and spec_syntax is not NOTHING and \
+            (meta['formatter'] == 'indent') != (spec_syntax in ('pug', 'slim', 'haml')):
+        return False        # ... or for the other formatter family
+    if spec_booleans is None and any(a.lower() in booleans for a in meta.get('attrs', ())):
         return False
     return True
 
@@ -141,7 +151,7 @@ def check_call(run, i, op, result):
         if idx != list(range(1, len(idx) + 1)):
             bad('numbering-document-order', {'indices-in-document-order': idx})
             return
-        if 'expect' in meta and not count_model_applies(meta, spec.get('text')):
+        if 'expect' in meta and not count_model_applies(meta, spec.get('text'), (spec.get('options') or {}).get('output.booleanAttributes'), spec.get('syntax')):
             run.count('c13:count-model-not-applicable(vocabulary now in a snippet table / boolean list)')
         elif 'expect' in meta:
             run.count('c13:calls-numbering-counted')
@@ -150,6 +160,14 @@ def check_call(run, i, op, result):
                 return
     elif mode == 'explicit':
         run.count('c13:calls-numbering-explicit')
+        if 'expect_anon' in meta and count_model_applies(meta, spec.get('text'), (spec.get('options') or {}).get('output.booleanAttributes'), spec.get('syntax')) \
+                and not (spec.get('options') or {}).get('bem.enabled'):
+            run.count('c13:calls-numbering-anonymous-counted')
+            anon = len([1 for _ix, ph in fields if not ph])
+            if anon != meta['expect_anon']:
+                bad('numbering-count', {'tabstops-with-empty-placeholder': anon,
+                                        'empty-values-and-leaves-in-abbreviation': meta['expect_anon']})
+                return
         instances = []      # list of (value id or None, [(observed, written or None, placeholder)])
         cur = None
         for observed, ph in fields:
